@@ -373,6 +373,11 @@ def okSkip : Option Rel → Complex → Bool
   | some .next, sk => sk.isEmpty
   | some .later, sk => sibChain sk
 
+/-- complex.rs:221–227: `~` in the superselector accepts `~` or `+` in the subselector, otherwise
+    the combinators must be equal -/
+def combClash (cb1 cb2 : Comb) : Bool :=
+  if cb1 = .later then decide (cb2 = .child) else decide (cb1 ≠ cb2)
+
 /-- inner `while` of complex.rs:184–206: first compound of `b` (not its last component) that
     `c1` is a superselector of; returns (skipped components, that compound, what follows it) -/
 def scan (sup : Compound → Compound → Complex → Bool) (c1 : Compound) :
@@ -411,7 +416,7 @@ def walk (asFound : Bool) (sup : Compound → Compound → Complex → Bool) :
         if !(asFound || okSkip prev sk) then false else
         match brest with
         | .comb cb2 :: brest' =>
-          if (if cb1 = .later then cb2 = .child else cb1 ≠ cb2) then false
+          if combClash cb1 cb2 then false
           else if a'.length + 2 == 3 && b.length > 3 then false
           else walk asFound sup (some cb1.rel) a' brest'
         | _ => false
